@@ -221,7 +221,7 @@ def obsCol (o : ObsStep) (j : Nat) : Spec.ObsCol Rat :=
     tstd := getO o.tstd j, tvar := getO o.tvar j, targmax := o.targmax[j]?, targmin := o.targmin[j]? }
 
 def clauseOrder : List String :=
-  ["raised", "nonfinite", "taxa", "raw", "standardised", "standardised:constant", "standardised:constant:inexact_mean",
+  ["raised", "nonfinite", "taxa", "raw", "standardised", "standardised:constant",
    "stat:tmax", "stat:tmin", "stat:trange", "stat:tmean", "stat:targmax", "stat:targmin",
    "stat:tstd", "stat:tvar", "stat:tstd:constant", "stat:tvar:constant"]
 
@@ -318,7 +318,9 @@ def EditIx.norm (n : Nat) : EditIx → Except Err (Edit Rat)
 def stateSnaps (repaired needs : Bool) : List EditIx → BV Rat → List Json
   | [], b => [snapshot b]
   | e :: es, b => snapshot b ::
-    match e.norm b.taxa.length with
+    match (match e with
+           | .op o => EditIx.op (withSelf (.bv b) o)
+           | e => e).norm b.taxa.length with
     | .error x => [J.obj [("err", J.ofStr (errTag x))]]
     | .ok ed =>
       match (match ed with
@@ -352,26 +354,29 @@ def retainedMask (n : Nat) (m : Nat) : Op Rat → List Bool
   | .incorp k v => List.replicate (min k n) true ++ List.replicate v.taxa.length false ++ List.replicate (n - k) true
   | _ => List.replicate m true
 
-/-- failing clauses of the state after one edit, judged against the state observed before it -/
+/-- failing clauses of the state after one edit, judged against the state observed before it.  A
+    copy-on-manipulation request (`select/delete/insert/adjoin_taxa`, whose result REPLACES the object in this
+    kind of case) must deliver `from_numpy` of the edited raw values `prev.unscale()` WHATEVER state the object
+    was in (stale or re-assigned location / scale): the full `specStep` is evaluated on its result. -/
 def stateStep (tol : Tol) (mags : List Rat) (prev : ObsStep) (e : EditIx) (o : ObsStep) : List String :=
   if o.raised then ["raised"] else
   let n := prev.taxa.length
   let t := prev.unscale.length
-  let plan : Option (List Nat × List (Col Rat) × (Nat → List Bool)) :=
+  let plan : Option (List Nat × List (Col Rat) × (Nat → List Bool) × Bool) :=
     match e with
     | .edit (.setItem j i _) =>
-        some (prev.taxa, prev.unscale, fun jj => (List.range n).map (fun ii => !(jj == j && ii == i)))
-    | .edit _ => some (prev.taxa, prev.unscale, fun _ => List.replicate n false)
+        some (prev.taxa, prev.unscale, fun jj => (List.range n).map (fun ii => !(jj == j && ii == i)), false)
+    | .edit _ => some (prev.taxa, prev.unscale, fun _ => List.replicate n false, false)
     | .op ox =>
-      match ox.norm n with
+      match (withSelf (.nd prev.unscale prev.taxa) ox).norm n with
       | .error _ => none
       | .ok op =>
         match applyRaw op (prev.unscale, prev.taxa) with
-        | .ok r' => some (r'.2, r'.1, fun _ => retainedMask n r'.2.length op)
+        | .ok r' => some (r'.2, r'.1, fun _ => retainedMask n r'.2.length op, op.restandardises)
         | .error _ => none
   match plan with
   | none => []          -- not a valid request: the property says nothing
-  | some (expTaxa, expCols, mask) =>
+  | some (expTaxa, expCols, mask, full) =>
     let shapeOk := o.unscale.length == t && o.mat.length == t && o.loc.length == t && o.scale.length == t
     (if o.nonfinite then ["nonfinite"] else []) ++
     (if o.taxa == expTaxa then [] else ["taxa"]) ++
@@ -380,7 +385,8 @@ def stateStep (tol : Tol) (mags : List Rat) (prev : ObsStep) (e : EditIx) (o : O
         let oc := obsCol o j
         let mag := mags.getD j 1
         (if Spec.rawOkMask tol mag (mask j) (expCols.getD j []) oc.unscale then [] else ["retained"]) ++
-          Spec.anyStateCol ratSqrt tol mag (oc.unscale.length != 0 && o.hasStats) oc)).flatten.eraseDups)
+          Spec.anyStateCol ratSqrt tol mag (oc.unscale.length != 0 && o.hasStats) oc)).flatten.eraseDups) ++
+    (if full then (specStep tol mags (expCols, expTaxa) o).filter (· != "taxa") else [])
 
 def stateWalk (tol : Tol) : List Rat → ObsStep → List EditIx → List ObsStep → List Json
   | _, _, _, [] => []
